@@ -120,7 +120,10 @@ def r08_34(ctx):
         guarded = []
         for a, v, pt in init_first:
             gs = normalized_guards(ctx, b, pt[0])
-            guarded.append(any(op == 'true' and is_call(g, 'Option::<T>::is_none') and is_self_field(strip_all(g[2][0]), 'current_point') for op, g, b2, si in gs))
+            vg = variant_guards(ctx, b, pt[0])
+            guarded.append(any(op == 'true' and is_call(g, 'Option::<T>::is_none') and is_self_field(strip_all(g[2][0]), 'current_point') for op, g, b2, si in gs)
+                           or any(op == '!true' and is_call(g, 'Option::<T>::is_some') and is_self_field(strip_all(g[2][0]), 'current_point') for op, g, b2, si in gs)
+                           or any(vv == 'None' and is_self_field(strip_all(scr), 'current_point') for scr, adt, vv, sb in vg))
         ctx.check(bool(init_first) and all(guarded) and bool(init_cur), R, key + '|implicit start', b.loc(), 'without a cursor the first point starts the subpath',
                   '%s does not start a subpath at its first point exactly when there is no current point' % meth)
         # (b) the cursor ends at the end point
@@ -1002,33 +1005,36 @@ def r01_11(ctx):
         f = nm[0]
         mm, axis, _ = want[f]
         v = strip_all(v)
-        ok = v[0] == 'call' and isinstance(v[1], str) and v[1].endswith('Ord::' + mm) and len(v[2]) == 2
-        other = None
-        if ok:
-            args = [strip_all(x) for x in v[2]]
-            mine = [x for x in args if is_self_field(x, f)]
-            rest = [x for x in args if not is_self_field(x, f)]
-            ok = len(mine) == 1 and len(rest) == 1 and is_call(rest[0], 'rasterizer::dot2_to_int')
-            other = rest[0] if ok else None
+        def leaves_of(t):
+            # a chain min(min(a, b), c) is the min of its leaves
+            t = strip_all(t)
+            if t[0] == 'call' and isinstance(t[1], str) and t[1].endswith('Ord::' + mm) and len(t[2]) == 2:
+                return leaves_of(t[2][0]) + leaves_of(t[2][1])
+            return [t]
+        args = leaves_of(v)
+        mine = [x for x in args if is_self_field(x, f)]
+        rest = [x for x in args if not is_self_field(x, f)]
+        ok = len(args) >= 2 and len(mine) == 1 and bool(rest) and all(is_call(x, 'rasterizer::dot2_to_int') for x in rest)
         loc = b.loc(b.blocks[pt[0]]['st'][pt[1]]['sp'])
         if not ctx.check(ok, R, key + '|%s update form' % f, loc, '%s = %s(%s, dot2_to_int(..))' % (f, mm, f), '%s is not updated as %s(self.%s, dot2_to_int(..)): %s' % (f, mm, f, fmt(b, v)[:160])):
             continue
-        p = poly(other[2][0])
-        k = p.d.get((), 0)
-        nonconst = {m: c for m, c in p.d.items() if m != ()}
-        okp = len(nonconst) == 1 and list(nonconst.values())[0] == 1 and len(list(nonconst)[0]) == 1
-        if mm == 'min':
-            okk = okp and k <= 0
-            msg = 'rounded down (offset %s)' % k
-        else:
-            okk = okp and k >= up
-            msg = 'rounded up (offset %s, needs >= %d)' % (k, up)
-        ctx.check(okk, R, key + '|%s rounding' % f, loc, '%s: %s' % (f, msg),
-                  '%s is updated with dot2_to_int(%s): the %s bound must be rounded %s (offset %s) or the coverage mask is one pixel short on that side and the last quarter-pixel column/row of coverage is clamped away' % (f, fmt(b, other[2][0])[:100], f.split('_')[1], 'down (offset <= 0)' if mm == 'min' else 'up (offset >= %d)' % up, k))
-        deps = dt.direct_deps(an, other)
-        for x in deps:
-            if len(x) == 5 and x[0] == 'field' and x[2] in ('x', 'y') and strip_all(x[1])[0] in ('mem', 'param', 'phi') and strip_all(x[1])[1] in (2, 3, 5):
-                feeds.setdefault((f, strip_all(x[1])[1], x[2]), set()).add(pt[0])
+        for other in rest:
+          p = poly(other[2][0])
+          k = p.d.get((), 0)
+          nonconst = {m: c for m, c in p.d.items() if m != ()}
+          okp = len(nonconst) == 1 and list(nonconst.values())[0] == 1 and len(list(nonconst)[0]) == 1
+          if mm == 'min':
+              okk = okp and k <= 0
+              msg = 'rounded down (offset %s)' % k
+          else:
+              okk = okp and k >= up
+              msg = 'rounded up (offset %s, needs >= %d)' % (k, up)
+          ctx.check(okk, R, key + '|%s rounding' % f, loc, '%s: %s' % (f, msg),
+                    '%s is updated with dot2_to_int(%s): the %s bound must be rounded %s (offset %s) or the coverage mask is one pixel short on that side and the last quarter-pixel column/row of coverage is clamped away' % (f, fmt(b, other[2][0])[:100], f.split('_')[1], 'down (offset <= 0)' if mm == 'min' else 'up (offset >= %d)' % up, k))
+          deps = dt.direct_deps(an, other)
+          for x in deps:
+              if len(x) == 5 and x[0] == 'field' and x[2] in ('x', 'y') and strip_all(x[1])[0] in ('mem', 'param', 'phi') and strip_all(x[1])[1] in (2, 3, 5):
+                  feeds.setdefault((f, strip_all(x[1])[1], x[2]), set()).add(pt[0])
     ctx.floor(R, 'bounds updates in add_edge', n, 6)
     need = [('bounds_left', 2, 'x'), ('bounds_left', 3, 'x'), ('bounds_right', 2, 'x'), ('bounds_right', 3, 'x'), ('bounds_top', 2, 'y'), ('bounds_bottom', 3, 'y')]
     names = {2: 'start', 3: 'end', 5: 'control'}
@@ -1079,3 +1085,40 @@ def r01_12(ctx):
             bad.append(fmt(b, t) if t is not None else d.kind)
     ctx.check(not bad and bool(incs), R, key + '|row advanced only by stepping', b.loc(), 'row += 1 only in a loop that calls e.step(row) on every iteration',
               'the insertion row is changed without stepping the edge (%s): an edge (in particular a curve edge, whose step() also advances its segment state) entering from above the surface arrives at row 0 with the wrong x and stale stepping state' % (bad or 'no stepping loop found'))
+
+
+def r08_6(ctx):
+    """subpath protocol of the fill path (DrawTarget::move_to/line_to/quad_to/cubic_to/close): starting from "no current
+    point", no sequence of ops leaves a current point without a recorded first point (close() needs it to add the
+    closing edge and to return the cursor there); decided by abstract interpretation of the two Option fields over
+    {None, Some} to a fixpoint over the five operations; nothing else writes the two fields"""
+    import typestate
+    R = 'R08.6'
+    ops = ['move_to', 'line_to', 'quad_to', 'cubic_to', 'close']
+    places = ['current_point', 'first_point']
+    S = {('N', 'N')}
+    trans = {}
+    for _ in range(6):
+        grew = False
+        for o in ops:
+            b = ctx.body(DT + o, R)
+            at, ex = typestate.run(ctx, b, places, entry=S, want_exits=True)
+            trans[o] = sorted(ex)
+            if not ex <= S:
+                S |= ex
+                grew = True
+        if not grew:
+            break
+    ctx.check(('S', 'S') in S, R, 'draw_target::DrawTarget|protocol states (positive control)', '-', 'reachable (current, first) states: %s' % sorted(S), 'the typestate interpreter does not reach (Some, Some): fail closed')
+    ctx.check(('S', 'N') not in S, R, 'draw_target::DrawTarget|current point implies first point', ctx.body(DT + 'close', R).loc(), 'no op sequence leaves a current point without a first point',
+              'some sequence of path ops leaves current_point = Some with first_point = None (exit states per op: %s), e.g. a path whose first op is a curve: close() then adds no closing edge and drops the cursor, so the contour stays open and what follows Close starts in the wrong place' % trans)
+    writers = set()
+    for q, b in ctx.F.bodies.items():
+        an = ctx.an(b)
+        for a, v, pt, kind in an.stores:
+            if kind == 'assign' and any(is_self_field(strip_all(a), f) for f in places) and any(x[0] == 'field' and x[3] == 'raqote::draw_target::DrawTarget' for x in subterms(a) if len(x) == 5):
+                writers.add(q)
+    allowed = set(DT + o for o in ops) | {DT + 'apply_path'}
+    extra = sorted(short(w) for w in writers - allowed)
+    ctx.check(not extra and len(writers & allowed) >= 5, R, 'draw_target::DrawTarget|writers of the cursor fields', '-', 'only the path ops and apply_path write current_point / first_point',
+              'current_point / first_point are also written by %s (or the path ops no longer write them): the protocol analysis does not cover those writers' % extra)
